@@ -84,7 +84,7 @@ def check_pair(a, b, seed):
                         return "%s: a result point %r is %r away from both input outlines (> %r): invented geometry" % (op, q, d, tol)
             for x, y in zip(segs, segs[1:] + segs[:1]):
                 g = math.hypot(x.end.x - y.start.x, x.end.y - y.start.y)
-                if g > 1e-6 and gaps is None:
+                if g > 1e-6 and (gaps is None or g > gaps[1]):
                     gaps = (op, g)
     if [oc.seg_pts(s) for s in A.asSegments()] != beforeA or [oc.seg_pts(s) for s in B.asSegments()] != beforeB:
         return "an input was modified"
@@ -149,14 +149,14 @@ def region_check(A, B, fa, fb, seed):
 
 def search(ctx, budget):
     rng = ctx.rng
-    n = 10 * ctx.scale * budget
+    n = 24 * ctx.scale * budget
     viol, samples = [], []
     seen = set()
     nontriv = 0
     for i in range(n):
         simple = i % 2 == 0
         a, b = cc.rand_pair(rng, i, simple=simple)
-        if i % 5 == 3:
+        if i % 8 == 6:
             # one operand is a flattened shape (a polygon whose edges carry the back-pointer to the curve they were cut from):
             # the inputs are this polygon's edges, not the curves it once was
             big = {"kind": "circle", "r": float(rng.randint(50, 110)), "o": (float(rng.randint(-40, 40)), float(rng.randint(-40, 40)))}
